@@ -34,3 +34,9 @@ func VerifTreeStack(app *App, method string) ([]int, [][]uint32) {
 	}
 	return keys, pos
 }
+
+// VerifTreePathHash reports the bucket key configDependentPaths derived for the request held
+// by c (ctx.treePathHash). Verification harness only.
+func VerifTreePathHash(c Ctx) int {
+	return c.getTreePathHash()
+}
